@@ -59,40 +59,77 @@ Definition is0 (x : option Q) : bool := oq_eqb x (Some 0%Q).
 Definition wfb (t : tree) : bool :=
   proper t && clean_tree t && names_ok (leaves t) && (4 <=? length (leaves t)).
 
+Section Checks.
+  Variable c : td_case.
+  Let a := tc_a c.
+  Let b := tc_b c.
+  Let sa := print a.
+  Let sb := print b.
+  Let R := leaves a.
+  Definition valid_pair : bool := wfb a && wfb b && same_taxa a b.
+  Definition guard : bool := valid_pair && has_split a && has_split b.
+  Definition reordered : bool := tree_permb a (tc_a' c) && tree_permb b (tc_b' c).
+
+  (* bit 0: the model reproduces everything the implementation returned *)
+  Definition chk0 : bool :=
+    option_eqb tree_eqb (load (tc_srcA c)) (Some a) && option_eqb tree_eqb (load (tc_srcB c)) (Some b)
+    && str_eqb sa (tc_strA c) && str_eqb sb (tc_strB c)
+    && strs_eqb (leaves a) (tc_taxaA c) && strss_eqb (clades a) (tc_cladesA c)
+    && strs_eqb (leaves b) (tc_taxaB c) && strss_eqb (clades b) (tc_cladesB c)
+    && bip_eqb (get_bipartition (norm3 sa)) (tc_bipA c)
+    && bip_eqb (get_bipartition (norm3 sb)) (tc_bipB c)
+    && dist_eqb (grf_both sa sb) (fst (tc_ab c)) (snd (tc_ab c))
+    && dist_eqb (grf_both sb sa) (fst (tc_ba c)) (snd (tc_ba c))
+    && dist_eqb (grf_both sa sa) (fst (tc_aa c)) (snd (tc_aa c))
+    && dist_eqb (grf_both sb sb) (fst (tc_bb c)) (snd (tc_bb c))
+    && dist_eqb (grf_both (print (tc_a' c)) (print (tc_b' c))) (fst (tc_pab c)) (snd (tc_pab c))
+    && str_eqb sa (tc_str2A c) && str_eqb sb (tc_str2B c)
+    && strs_eqb (leaves a) (tc_taxa2A c) && strss_eqb (clades a) (tc_clades2A c)
+    && strs_eqb (leaves b) (tc_taxa2B c) && strss_eqb (clades b) (tc_clades2B c)
+    && (negb valid_pair || oq_eqb (spec_grf R a b) (fst (tc_ab c))).
+
+  (* bit 1: a tree against itself: both distances 0 *)
+  Definition chk1 : bool :=
+    (negb (wfb a && has_split a) || is0 (fst (tc_aa c)) && is0 (snd (tc_aa c)))
+    && (negb (wfb b && has_split b) || is0 (fst (tc_bb c)) && is0 (snd (tc_bb c))).
+
+  (* bit 2: re-ordered children: same distances *)
+  Definition chk2 : bool :=
+    negb (guard && reordered)
+    || oq_eqb (fst (tc_pab c)) (fst (tc_ab c)) && oq_eqb (snd (tc_pab c)) (snd (tc_ab c))
+       && negb (match fst (tc_ab c) with None => true | _ => false end).
+
+  (* bit 3: range (grf for whatever came back; rf for trees on one taxon set) *)
+  Definition chk3 : bool :=
+    in01 (fst (tc_ab c)) && in01 (fst (tc_ba c)) && in01 (fst (tc_pab c))
+    && (negb valid_pair
+        || in01 (snd (tc_ab c)) && in01 (snd (tc_ba c)) && (negb reordered || in01 (snd (tc_pab c)))).
+
+  (* bit 4: rf symmetric *)
+  Definition chk4 : bool := negb guard || oq_eqb (snd (tc_ab c)) (snd (tc_ba c)).
+
+  (* bit 5: rf = normalised symmetric difference of the bipartition sets of the rose trees *)
+  Definition chk5 : bool := negb guard || oq_eqb (snd (tc_ab c)) (spec_rf R a b).
+
+  (* bit 6: parsing the printed text gives back a tree with the same leaves and the same clades (as sets) *)
+  Definition chk6 : bool :=
+    (negb (wfb a) || set_eqb (tc_taxa2A c) (tc_taxaA c) && setsets_eqb (tc_clades2A c) (tc_cladesA c))
+    && (negb (wfb b) || set_eqb (tc_taxa2B c) (tc_taxaB c) && setsets_eqb (tc_clades2B c) (tc_cladesB c)).
+End Checks.
+
 Definition td_case_code (c : td_case) : nat :=
-  let a := tc_a c in let b := tc_b c in
+  bit 0 (chk0 c) + bit 1 (chk1 c) + bit 2 (chk2 c) + bit 3 (chk3 c) + bit 4 (chk4 c) + bit 5 (chk5 c)
+  + bit 6 (chk6 c).
+
+(* the case whose "implementation" fields are filled with what the model computes *)
+Definition model_case (a b a' b' : tree) : td_case :=
   let sa := print a in let sb := print b in
-  let guard := wfb a && wfb b && same_taxa a b && has_split a && has_split b in
-  let R := leaves a in
-  bit 0 (option_eqb tree_eqb (load (tc_srcA c)) (Some a) && option_eqb tree_eqb (load (tc_srcB c)) (Some b)
-         && str_eqb sa (tc_strA c) && str_eqb sb (tc_strB c)
-         && strs_eqb (leaves a) (tc_taxaA c) && strss_eqb (clades a) (tc_cladesA c)
-         && strs_eqb (leaves b) (tc_taxaB c) && strss_eqb (clades b) (tc_cladesB c)
-         && bip_eqb (get_bipartition (norm3 sa)) (tc_bipA c)
-         && bip_eqb (get_bipartition (norm3 sb)) (tc_bipB c)
-         && dist_eqb (grf_both sa sb) (fst (tc_ab c)) (snd (tc_ab c))
-         && dist_eqb (grf_both sb sa) (fst (tc_ba c)) (snd (tc_ba c))
-         && dist_eqb (grf_both sa sa) (fst (tc_aa c)) (snd (tc_aa c))
-         && dist_eqb (grf_both sb sb) (fst (tc_bb c)) (snd (tc_bb c))
-         && dist_eqb (grf_both (print (tc_a' c)) (print (tc_b' c))) (fst (tc_pab c)) (snd (tc_pab c))
-         && str_eqb sa (tc_str2A c) && str_eqb sb (tc_str2B c)
-         && strs_eqb (leaves a) (tc_taxa2A c) && strss_eqb (clades a) (tc_clades2A c)
-         && strs_eqb (leaves b) (tc_taxa2B c) && strss_eqb (clades b) (tc_clades2B c)
-         && (negb (wfb a && wfb b && same_taxa a b) || oq_eqb (spec_grf R a b) (fst (tc_ab c))))
-  (* a tree against itself: both distances 0 *)
-  + bit 1 ((negb (wfb a && has_split a) || is0 (fst (tc_aa c)) && is0 (snd (tc_aa c)))
-           && (negb (wfb b && has_split b) || is0 (fst (tc_bb c)) && is0 (snd (tc_bb c))))
-  (* re-ordered children: same distances *)
-  + bit 2 (negb (guard && tree_permb a (tc_a' c) && tree_permb b (tc_b' c))
-           || oq_eqb (fst (tc_pab c)) (fst (tc_ab c)) && oq_eqb (snd (tc_pab c)) (snd (tc_ab c))
-              && negb (match fst (tc_ab c) with None => true | _ => false end))
-  (* range *)
-  + bit 3 (in01 (fst (tc_ab c)) && in01 (snd (tc_ab c)) && in01 (fst (tc_ba c)) && in01 (snd (tc_ba c))
-           && in01 (fst (tc_pab c)) && in01 (snd (tc_pab c)))
-  (* rf symmetric *)
-  + bit 4 (negb guard || oq_eqb (snd (tc_ab c)) (snd (tc_ba c)))
-  (* rf = normalised symmetric difference of the bipartition sets of the rose trees *)
-  + bit 5 (negb guard || oq_eqb (snd (tc_ab c)) (spec_rf R a b))
-  (* parsing the printed text gives back a tree with the same leaves and the same clades (as sets) *)
-  + bit 6 ((negb (wfb a) || set_eqb (tc_taxa2A c) (tc_taxaA c) && setsets_eqb (tc_clades2A c) (tc_cladesA c))
-           && (negb (wfb b) || set_eqb (tc_taxa2B c) (tc_taxaB c) && setsets_eqb (tc_clades2B c) (tc_cladesB c))).
+  let both x y := (option_map fst (grf_both x y), option_map snd (grf_both x y)) in
+  {| tc_a := a; tc_b := b; tc_a' := a'; tc_b' := b';
+     tc_srcA := sa; tc_srcB := sb; tc_strA := sa; tc_strB := sb;
+     tc_taxaA := leaves a; tc_cladesA := clades a; tc_taxaB := leaves b; tc_cladesB := clades b;
+     tc_str2A := sa; tc_taxa2A := leaves a; tc_clades2A := clades a;
+     tc_str2B := sb; tc_taxa2B := leaves b; tc_clades2B := clades b;
+     tc_bipA := get_bipartition (norm3 sa); tc_bipB := get_bipartition (norm3 sb);
+     tc_ab := both sa sb; tc_ba := both sb sa; tc_aa := both sa sa; tc_bb := both sb sb;
+     tc_pab := both (print a') (print b') |}.
